@@ -94,6 +94,18 @@ var fmVariants = []genpipe.Variant{
 	{Runtime: "v1", FM: true, PerMessage: true}, {Runtime: "v2", FM: true, Unsafe: true},
 }
 
+// allVariants: the fixed variants plus, for every boolean option of the generator that the pipeline discovers in
+// the generator's source and has no fixed variant for, that option switched on with the google v2 runtime (single
+// file template) and with the v1 API and a file per message (the other file template). A (schema, option variant)
+// pair whose generated code is the base variant's (the option does not reach it) is left out by buildCorpus.
+func allVariants() []genpipe.Variant {
+	vs := append([]genpipe.Variant{}, fmVariants...)
+	for _, o := range genpipe.NewBoolOptions() {
+		vs = append(vs, genpipe.Variant{Runtime: "v2", FM: true, Opt: o}, genpipe.Variant{Runtime: "v1", FM: true, PerMessage: true, Opt: o})
+	}
+	return vs
+}
+
 // buildCorpus generates and compiles the corpus (cached by content hash under /verif/.cache/gen).
 func buildCorpus(c *fw.Ctx) *builtCorpus {
 	cache := filepath.Join(fw.VerifDir, ".cache")
@@ -103,13 +115,32 @@ func buildCorpus(c *fw.Ctx) *builtCorpus {
 		return nil
 	}
 	bc := &builtCorpus{plugins: pl, compiled: map[string]bool{}, buildErr: map[string]string{}}
+	optEffect := map[string][]string{} // option -> schema/variant pairs whose generated code it changes
+	for _, o := range genpipe.NewBoolOptions() {
+		optEffect[o+"=true"] = []string{}
+	}
 	for _, s := range genpipe.Corpus() {
-		for _, v := range fmVariants {
-			if s.AppliesTo(v.Runtime) {
-				bc.gens = append(bc.gens, genpipe.Generate(pl, s, v))
+		base := map[genpipe.Variant]*genpipe.Generated{}
+		for _, v := range allVariants() {
+			if !s.AppliesTo(v.Runtime) {
+				continue
 			}
+			g := genpipe.Generate(pl, s, v)
+			if v.Opt == "" {
+				base[v] = g
+			} else {
+				bv := v
+				bv.Opt = ""
+				if b := base[bv]; b != nil && genpipe.SameOutput(b, g) {
+					continue // the same code as the base variant: compiled and run there
+				}
+				optEffect[v.Opt+"=true"] = append(optEffect[v.Opt+"=true"], s.ID+"/"+v.Name())
+			}
+			bc.gens = append(bc.gens, g)
 		}
 	}
+	c.Extra["generator_bool_options_discovered"] = genpipe.BoolOptions()
+	c.Extra["generator_option_variants_with_other_code_than_the_base_variant"] = optEffect
 	// everything that influences the runner binary goes into the key
 	repoHash, _ := exec.Command("bash", "-c", "cd "+fw.RepoDir+" && { git rev-parse HEAD; git diff HEAD -- . ':!example' ':!cmd' ; git status --porcelain -- . ':!example'; } | sha256sum").Output()
 	harnessHash, _ := exec.Command("bash", "-c", "cd "+fw.VerifDir+"/harness && cat gencheck/*.go internal/prng/*.go cmd/corr/gen.go internal/genpipe/*.go | sha256sum").Output()
